@@ -72,6 +72,7 @@ type Contract struct {
 	NoOvf       bool
 	Skip        []string // safety classes not claimed for this function
 	CallAs      []*CallAs
+	PartialAnchors bool // `partial-anchors`: calls of an instrumented callee may remain without ghost update / assertion
 	NoShared    bool   // `nosharedwrites`: with `modifies *` (effects of callees are unconstrained) the function's own stores, map updates, appends and Once.Do calls must still hit memory allocated during the call
 	RecvAlias   string // contracts instantiated from a `methods` default: the name the clauses use for the receiver
 	FromDefault string // key of the `methods` default this contract was instantiated from
@@ -164,7 +165,7 @@ var clauseKeywords = map[string]bool{
 	"func": true, "methods": true, "iface": true, "functype": true, "trusted": true, "ghost": true, "define": true,
 	"axiom": true, "lemma": true, "props": true, "safety": true, "requires": true, "ensures": true,
 	"modifies": true, "panics": true, "panics-iff": true, "nopanic": true, "loop": true, "decreases": true,
-	"assert": true, "inline": true, "nosharedwrites": true, "pure": true, "allocates": true, "global": true, "ovf": true, "noovf": true,
+	"assert": true, "inline": true, "nosharedwrites": true, "partial-anchors": true, "pure": true, "allocates": true, "global": true, "ovf": true, "noovf": true,
 	"uninterpreted": true, "opaque": true, "use": true, "skip": true, "model": true, "call": true, "dispatch": true, "also": true, "requires-captured": true, "assumes": true,
 }
 
@@ -482,6 +483,8 @@ func (cs *ContractSet) LoadContractFile(path, pkgPath string, trusted bool) erro
 				cur.NoPanic = true
 			case "pure":
 				cur.Pure = true
+			case "partial-anchors":
+				cur.PartialAnchors = true
 			case "nosharedwrites":
 				cur.NoShared = true
 			case "inline":
